@@ -24,6 +24,8 @@ pub struct TxCfg {
     pub server: bool,
     pub mtu: usize,
     pub peer_isn: u32,
+    /// the socket served an earlier connection (peer MSS 1460, window scale 7) that was reset
+    pub reuse: bool,
 }
 
 #[derive(Clone, Debug, PartialEq)]
@@ -120,6 +122,33 @@ impl Harness for Tx {
         };
         let p = cfg.peer_isn;
         let opts = syn_opts(cfg);
+        if cfg.reuse {
+            // earlier connection on the same socket object, with different negotiated options
+            let q = p.wrapping_add(0x2468_ace0);
+            let o0 = [2u8, 4, 5, 180, 3, 3, 7, 1];
+            let iss0;
+            if cfg.server {
+                w.sock().listen(80).unwrap();
+                let mut fr = w.ingress_single(build_seg(q, None, wc::TCP_SYN, 1000, &o0, &[]));
+                fr.extend(w.egress());
+                iss0 = fr.iter().filter_map(|f| wc::parse_ip(f).ok().and_then(|ip| wc::parse_tcp(&ip, f).ok())).find(|t| t.has(wc::TCP_SYN)).map(|t| t.seq).unwrap_or(0);
+                w.ingress_single(build_seg(q.wrapping_add(1), Some(iss0.wrapping_add(1)), 0, 1000, &[], &[]));
+            } else {
+                assert!(w.connect());
+                let fr = w.egress();
+                iss0 = fr.iter().filter_map(|f| wc::parse_ip(f).ok().and_then(|ip| wc::parse_tcp(&ip, f).ok())).find(|t| t.has(wc::TCP_SYN)).map(|t| t.seq).unwrap_or(0);
+                w.ingress_single(build_seg(q, Some(iss0.wrapping_add(1)), wc::TCP_SYN, 1000, &o0, &[]));
+            }
+            w.egress();
+            let _ = w.sock().send_slice(b"old connection data");
+            w.egress();
+            w.ingress_single(build_seg(q.wrapping_add(1), Some(iss0.wrapping_add(1)), wc::TCP_RST, 0, &[], &[]));
+            w.egress();
+            if w.state() != State::Closed {
+                w.sock().abort();
+                w.egress();
+            }
+        }
         if cfg.server {
             w.sock().listen(80).unwrap();
             std::mem::swap(&mut t.w, &mut w);
@@ -236,7 +265,7 @@ impl Harness for Tx {
 pub fn tx_configs(tier: Tier) -> Vec<(TxCfg, usize)> {
     let (mut d, dbig) = if tier == Tier::Quick { (6, 2) } else { (8, 3) };
     if let Ok(x) = std::env::var("TX_D") { d = x.parse().unwrap(); }
-    let base = TxCfg { name: "base", tx: 64, rx: 64, len: 40, chunk: 16, peer_mss: Some(100), peer_ws: None, server: true, mtu: 1500, peer_isn: 0xffff_fff0 };
+    let base = TxCfg { name: "base", tx: 64, rx: 64, len: 40, chunk: 16, peer_mss: Some(100), peer_ws: None, server: true, mtu: 1500, peer_isn: 0xffff_fff0, reuse: false };
     vec![
         (base.clone(), d),
         (TxCfg { name: "mss-absent", peer_mss: None, len: 30, chunk: 30, ..base.clone() }, d),
@@ -249,6 +278,10 @@ pub fn tx_configs(tier: Tier) -> Vec<(TxCfg, usize)> {
         (TxCfg { name: "bigrx-no-peer-ws", rx: 70000, len: 20, chunk: 20, ..base.clone() }, dbig),
         (TxCfg { name: "bigrx-peer-ws0", rx: 70000, len: 20, chunk: 20, peer_ws: Some(0), ..base.clone() }, dbig),
         (TxCfg { name: "bigrx-client-no-peer-ws", rx: 70000, len: 20, chunk: 20, server: false, ..base.clone() }, dbig),
+        // reused socket objects: nothing negotiated on the earlier connection may survive
+        (TxCfg { name: "reuse-srv-mss-absent", reuse: true, peer_mss: None, tx: 2048, len: 1300, chunk: 1300, ..base.clone() }, d.min(5)),
+        (TxCfg { name: "reuse-cli-mss-0", reuse: true, peer_mss: Some(0), server: false, tx: 2048, len: 1300, chunk: 1300, ..base.clone() }, d.min(5)),
+        (TxCfg { name: "reuse-srv-bigrx-no-ws", reuse: true, rx: 70000, len: 20, chunk: 20, ..base.clone() }, dbig),
     ]
 }
 
